@@ -65,6 +65,8 @@ impl Drop for ResDir {
 }
 
 pub const FIXED_TIME_SECS: u64 = 1_600_000_000;
+/// description written into every system dictionary (non-ASCII on purpose: bytes != characters)
+pub const DESCRIPTION: &str = "vh 辞書";
 
 fn fixed_time() -> std::time::SystemTime {
     std::time::UNIX_EPOCH + std::time::Duration::from_secs(FIXED_TIME_SECS)
@@ -73,7 +75,7 @@ fn fixed_time() -> std::time::SystemTime {
 pub fn compile_system(lex_csv: &[u8], matrix: &[u8]) -> SudachiResult<Vec<u8>> {
     let mut b = DictBuilder::new_system();
     b.set_compile_time(fixed_time());
-    b.set_description("vh");
+    b.set_description(DESCRIPTION);
     b.read_conn(matrix)?;
     b.read_lexicon(lex_csv)?;
     b.resolve()?;
